@@ -194,7 +194,9 @@ Proof. exact (conj (fun H => H) (fun H => H)). Qed.
 
 (** the allowed operations: all of [Driver.op] except [find_or_add], the
     reordering entry points, the harness setters, [copy_bdd],
-    [image]/[preimage]; [configure(reordering=True)] is excluded *)
+    [image]/[preimage]; [configure(reordering=True)] is excluded; the
+    assignment [bdd.max_nodes = n] ([OSetMaxNodes]) is included, so the
+    histories below meet calls that fail on a full table *)
 Theorem C17_allowed_unfold o :
   allowed o =
   match o with
@@ -204,6 +206,7 @@ Theorem C17_allowed_unfold o :
   | OCofactor _ _ _ | OQuantify _ _ _ _ | OCompose _ _ | ORename _ _
   | OLet _ _ | OCube _ | OSupport _ | OIsEssential _ _ => true
   | OConfigure b => bool_decide (b ≠ Some true)
+  | OSetMaxNodes _ => true
   | _ => false
   end.
 Proof. exact eq_refl. Qed.
